@@ -63,6 +63,9 @@ theorem fill_step (s s' : St) (e : Ev) (hi : Inv s) (h : Fill s) (hs : step s e 
   | acq a old =>
     simp only [step, stepAcq] at hs
     (repeat' (split at hs)) <;> first | (cases hs; done) | (cases hs; exact fill_same _ _ rfl rfl h)
+  | cbBegin a =>
+    simp only [step, stepCbBegin] at hs
+    split at hs <;> first | (cases hs; done) | (cases hs; exact fill_same _ _ rfl rfl h)
   | cb a vs =>
     simp only [step, stepCb] at hs
     split at hs <;> first | (cases hs; done) | (cases hs; exact fill_same _ _ rfl rfl h)
